@@ -289,9 +289,11 @@ def check_timer(repo, pm, rep):
 
 def check_invariants(repo, model: FsmModel, rep):
     """G5: inductive invariants, cell by cell."""
+    missing = []
     for (e, s), action_id in sorted(ps3_8.TABLE.items()):
         meth = model.table.get(('EVT_%d' % e, 'STA_%d' % s))
         if meth is None:
+            missing.append('(Evt%d, Sta%d): %s' % (e, s, action_id))
             continue
         prim, sock = cell_context(e, s)
         f = model.sm.find_method(meth)
@@ -323,6 +325,16 @@ def check_invariants(repo, model: FsmModel, rep):
         rep.check(not p_pdata, 'C05.G5c', key, loc, 'no P-DATA outside an established association', ' | '.join(sorted(set(p_pdata))))
         if s == 13:
             rep.check(not p_ind13, 'C05.G5d', key, loc, 'no user indication in Sta13', ' | '.join(sorted(set(p_ind13))))
+
+
+def check_totality(model: FsmModel, rep):
+    """G5f: every (event, state) pair the standard defines is bound: an event in a state the table does not know is dropped
+    without any effect (C04.T5), so on a history that reaches that pair the provider neither answers, indicates nor ends."""
+    missing = ['(Evt%d, Sta%d): %s' % (e, s, a) for (e, s), a in sorted(ps3_8.TABLE.items())
+               if model.table.get(('EVT_%d' % e, 'STA_%d' % s)) is None]
+    rep.check(not missing, 'C05.G5f', 'fsm:StateMachine.transition_table:totality', model.sm.loc(),
+              'all %d cells of Table 9-10 are bound' % len(ps3_8.TABLE),
+              'events are silently dropped in these states (cells of Table 9-10 not bound): ' + '; '.join(missing[:12]))
 
 
 def check_recv_guard(pm: ProviderModel, rep):
@@ -424,6 +436,7 @@ def run(repo, rep):
     rep.rule('C05.G5c', 'P-DATA-TF sent only in Sta6/Sta8, P-DATA indicated only in Sta6/Sta7', 100)
     rep.rule('C05.G5d', 'no indication to the user in any Sta13 cell', 8)
     rep.rule('C05.G5e', 'socket reads are dominated by a socket-presence test', 1)
+    rep.rule('C05.G5f', 'totality: every (event, state) pair of Table 9-10 is bound to an action (an unbound pair drops the event)', 1)
     rep.rule('C05.G7', 'events reach the machine in wire order: complete PDUs already buffered are framed before the socket is '
              'polled again, so neither a transport close (Evt17) nor later data overtakes them', 1)
     rep.rule('C05.G6', 'loop polls network, outgoing queue, timer in that order; one event popped and one action run per iteration', 1)
@@ -435,6 +448,7 @@ def run(repo, rep):
     check_producers(repo, model, pm, rep)
     check_timer(repo, pm, rep)
     check_invariants(repo, model, rep)
+    check_totality(model, rep)
     check_recv_guard(pm, rep)
     check_loop_order(pm, rep)
     check_wire_order(pm, rep)
